@@ -174,8 +174,11 @@ class SmtLibSolver(Solver): # TODO this class is defined twice in pysmt. Here an
         formula = formula.simplify()
         sorts = self.to.get_types(formula, custom_only=True)
         for s in sorts:
-            if all(s not in ds for ds in self.declared_sorts):
-                self._declare_sort(s)
+            # What is declared is the sort constructor, shared by all
+            # the instances of a sort with parameters (e.g., P{Int})
+            decl = s.decl
+            if all(decl not in ds for ds in self.declared_sorts):
+                self._declare_sort(decl)
         deps = formula.get_free_variables()
         for d in deps:
             if all(d not in dv for dv in self.declared_vars):
